@@ -188,7 +188,16 @@ fn rand_flags(r: &mut Rng, spec: &FontSpec, plain: (u64, u64)) -> (u16, Option<u
     }
     let mut f = 0u16;
     let mut set = None;
-    match r.below(7) {
+    match r.below(9) {
+        7 | 8 => {
+            // mark filtering set AND mark attachment type in one flag word: the set decides which marks count, the
+            // attachment class is not consulted for them
+            let nsets = spec.gdef.as_ref().map_or(0, |g| g.mark_glyph_sets.len());
+            f |= (r.range(1, 2) as u16) << 8;
+            if nsets > 0 {
+                set = Some(r.below(nsets as u64) as u16);
+            }
+        }
         0 => f |= lookup_flags::IGNORE_MARKS,
         1 => f |= lookup_flags::IGNORE_BASE_GLYPHS,
         2 => f |= lookup_flags::IGNORE_LIGATURES,
